@@ -62,7 +62,7 @@ def read_via(fs, text, cfg, kw=None, lasio_mod=None, tag="r"):
     return lasio.read(t, **kw)
 
 
-def write_via(fs, las, channel, kw=None, tag="w"):
+def write_via(fs, las, channel, kw=None, tag="w", codec="utf-8"):
     """Write through the channel, return the text that was stored (with '\\n' line ends as written)."""
     kw = dict(kw or {})
     if channel == "stringio":
@@ -74,9 +74,10 @@ def write_via(fs, las, channel, kw=None, tag="w"):
     if channel == "path":
         las.write(path, **kw)
     else:
-        fh = fs.open_as_caller(path, "w", encoding="utf-8", newline="")
+        fh = fs.open_as_caller(path, "w", encoding=codec, newline="")
         try:
             las.write(fh, **kw)
         finally:
             fh.close()
+        return fs.gettext(path, codec)
     return fs.gettext(path)
